@@ -6,13 +6,14 @@ files are digested through FileInfo::new and compared with hashlib.sha1.
 """
 import hashlib, os, zlib
 from ..core import digest
-from ..fmt import fiin
+from ..fmt import fiin, sqpack as sq
 
 LEVEL = "exploration"
 RULE = ("strings over all 128 ASCII code points, lengths 0..4096 (every length 0..300 once per shard, "
         "random longer ones), each hashed by the library and compared with zlib.crc32 and a bitwise CRC "
         "(partial path hash = JAMCRC of the lower-cased bytes, shader crc = reflected CRC-32 init 0, no xorout) "
-        "plus case-insensitivity (hash(s)==hash(swapcase s)); files of every length 0..300 and random lengths to "
+        "plus case-insensitivity (hash(s)==hash(swapcase s)), strings that look like numbers / hex literals / format strings, and the hash as index files use it "
+        "(40 paths with and without a folder part stored in generated .index / .index2 files, looked up under five spellings of their case, plus near misses); files of every length 0..300 and random lengths to "
         "4 MiB around the SHA-1 padding boundaries, plus lengths at which the bit count crosses a byte of the 64-bit length field (2^8, 2^16, 2^24 bits; thorough: 2^32 bits = 512 MiB), digested through FileInfo::new vs hashlib.sha1. "
         "non-trivial = string of length >= 1 / file of length >= 1; distinct = digest of the content")
 ASSUMPTIONS = ["Python zlib.crc32 and hashlib.sha1 are correct independent implementations",
@@ -59,6 +60,9 @@ def shard(ctx):
     strs = [gen_string(rng, i, P.get("small")) for i in range(P["nstr"])]
     if ctx.index == 0:
         strs += [bytes([c]) for c in range(128)] + [bytes(range(128)), bytes(range(127, -1, -1))]
+    # strings that look like something else than a name (numbers, hex literals, format strings, escapes): they are hashed like any other
+    strs += [x.encode() for x in ("0x1", "0x92531654", "0xDEADBEEF", "0X12", "0x", "0xg", "0x123456789", "1", "-1", "123456", "4294967295", "1e9", "0b101", "0o17", "#fff",
+                                  "null", "true", "None", "nan", "%s", "%20", "{0}", "$1", "\\n", "a\\0b", " lead", "trail ", "g_Sampler", "g_SamplerNormal", "0x1 ", " 0x1")]
     # case variants
     extra = []
     for s in strs[::3]:
@@ -97,6 +101,8 @@ def shard(ctx):
                 if got.get(v) != a:
                     ctx.violation("hash", dict(sub="case_insensitive"), dict(string_hex=s.hex()[:400], a=a, b=got.get(v)), files=[inp])
             ctx.stats.classes["case-pair"] += 1
+    if not P.get("small"):
+        index_lookups(ctx, rng)
     # ---- SHA-1 through FileInfo::new
     lens = [n for n in range(301) if n % ctx.nshards == ctx.index]
     if P.get("small"):
@@ -148,6 +154,56 @@ def shard(ctx):
                 ctx.violation("sha1", dict(sub="digest"), dict(length=len(d), got=e["digest"].hex(), expected=exp.hex()), files=[p])
     for p in paths:
         os.unlink(p)
+
+
+def index_lookups(ctx, rng):
+    """the path hash as index files use it: paths (with and without a folder part) stored in generated .index / .index2 files are found
+    under every spelling of their letters' case, and only they"""
+    alpha = "abcdefghijklmnopqrstuvwxyzABCDEFGHIJKLMNOPQRSTUVWXYZ0123456789_-."
+    def nm(a, b):
+        return "".join(rng.choice(alpha) for _ in range(rng.randint(a, b)))
+    paths = set()
+    while len(paths) < 40:
+        k = rng.random()
+        if k < 0.3:
+            paths.add(nm(1, 12) + rng.choice([".exl", ".EXL", ".Dat", ""]))          # a file outside of any folder
+        else:
+            paths.add("/".join(nm(1, 8) for _ in range(rng.randint(1, 4))) + "/" + nm(1, 12))
+    paths = sorted(paths)
+    for kind in (1, 2):
+        ents = []
+        for i, p in enumerate(paths):
+            lo = p.lower().encode()
+            if kind == 1:
+                h = sq.hash1(p) if "/" in p else (sq.jam(lo), sq.jam(b""))
+            else:
+                h = sq.jam(lo)
+            ents.append((h, i % 8, 128 * (i + 1), False))
+        rng.shuffle(ents)
+        f = ctx.write("lookup.index%s" % ("" if kind == 1 else "2"), sq.index_file(kind, ents, 0, ndats=8))
+        r = ctx.call("idx.open", f)
+        if not r.ok:
+            ctx.violation("hash", dict(sub="index_rejected", index=kind), dict(outcome=r.outcome), files=[f])
+            continue
+        h = r.value["handle"]
+        stored_lower = {p.lower() for p in paths}
+        for i, p in enumerate(paths):
+            for q in {p, p.upper(), p.lower(), p.swapcase(), "".join(c.upper() if rng.random() < 0.5 else c.lower() for c in p)}:
+                ro = ctx.call("idx.exists", h, q)
+                ctx.case(digest("idx", kind, q), True, ["index-lookup:index%d" % kind, "index-lookup:%s" % ("no-folder" if "/" not in p else "folder")], sample=dict(stored=p, queried=q, index=kind) if i == 0 else None)
+                if ro.ok and ro.value is not True:
+                    ctx.violation("hash", dict(sub="stored_path_not_found_in_index", index=kind, shape="no-folder" if "/" not in p else "folder"), dict(stored=p, queried=q), files=[f])
+                rf = ctx.call("idx.find", h, q)
+                if rf.ok and (rf.value["dat"], rf.value["offset"]) != (i % 8, 128 * (i + 1)):
+                    ctx.violation("hash", dict(sub="index_entry_of_another_path", index=kind), dict(stored=p, queried=q, got=rf.value, expected=(i % 8, 128 * (i + 1))), files=[f])
+            for q in (p + "x", "x" + p, p[:-1] or "q", p.replace("/", "_")):
+                if q.lower() in stored_lower:
+                    continue
+                ro = ctx.call("idx.exists", h, q)
+                ctx.case(digest("idx-absent", kind, q), True, ["index-lookup:absent"])
+                if ro.ok and ro.value is not False:
+                    ctx.violation("hash", dict(sub="absent_path_found_in_index", index=kind), dict(queried=q), files=[f])
+        ctx.call("drop", h)
 
 
 def bucket(n):
